@@ -8,6 +8,7 @@ import ThaiLintModel.C01.Drv
 import ThaiLintModel.C02.Drv
 import ThaiLintModel.C03.Drv
 import ThaiLintModel.C04.Drv
+import ThaiLintModel.C05.Drv
 import ThaiLintModel.C06.Drv
 import ThaiLintModel.C07.Drv
 import ThaiLintModel.C08.Drv
@@ -27,6 +28,7 @@ def dispatch (j : Json) : Json :=
   | "C02" => ThaiLintModel.C02.handle j
   | "C03" => ThaiLintModel.C03.handle j
   | "C04" => ThaiLintModel.C04.handle j
+  | "C05" => ThaiLintModel.C05.handle j
   | "C06" => ThaiLintModel.C06.handle j
   | "C07" => ThaiLintModel.C07.handle j
   | "C08" => ThaiLintModel.C08.handle j
